@@ -3,8 +3,10 @@ import QuinnModel.Gen.SendGate
 /-!
 How much room `Connection::poll_transmit` gives the next datagram of a batch (`next_datagram_size_limit`):
 
+    let probe_may_follow = spaces[space_idx + 1..].iter().any(|&id| self.spaces[id].loss_probes != 0);
     let next_datagram_size_limit = match self.spaces[space_id].loss_probes {
-        0 => segment_size,
+        0 if !probe_may_follow => segment_size,
+        0 => cmp::min(segment_size, usize::from(INITIAL_MTU)),      // a probe of a later space may be coalesced into it
         _ => { self.spaces[space_id].loss_probes -= 1; cmp::min(segment_size, usize::from(INITIAL_MTU)) }
     };
     buf_capacity += next_datagram_size_limit;
@@ -15,12 +17,22 @@ that the clamp does not depend on the packet space — is pinned by the T1 ancho
 -/
 namespace QM.Sizing
 
-/-- (new `loss_probes` credit of the space, size limit of the datagram being started) -/
-def nextDatagramLimit (lossProbes segmentSize : Nat) : Nat × Nat :=
+/-- (new `loss_probes` credit of the space, size limit of the datagram being started); `probeMayFollow` = a later
+    packet number space holds a loss-probe credit -/
+def nextDatagramLimitAhead (lossProbes : Nat) (probeMayFollow : Bool) (segmentSize : Nat) : Nat × Nat :=
   let _ := Gen.lossProbeClampShapeChecked
+  match lossProbes with
+  | 0 => (0, if probeMayFollow then min segmentSize Gen.initialMtu else segmentSize)
+  | n + 1 => (n, min segmentSize Gen.initialMtu)
+
+/-- the same when no later space holds a credit -/
+def nextDatagramLimit (lossProbes segmentSize : Nat) : Nat × Nat :=
   match lossProbes with
   | 0 => (0, segmentSize)
   | n + 1 => (n, min segmentSize Gen.initialMtu)
+
+theorem nextDatagramLimit_eq (l seg : Nat) : nextDatagramLimit l seg = nextDatagramLimitAhead l false seg := by
+  cases l <;> rfl
 
 end QM.Sizing
 
